@@ -164,7 +164,7 @@ def op_coq(op):
     raise ValueError(t)
 
 
-def seq_case(ops, mode, rng):
+def seq_case(ops, mode, rng, start_next=None, start_next_qt=None):
     lex = lex_db if mode == "db" else lex_raw
     jops = []
     for op in ops:
@@ -174,7 +174,12 @@ def seq_case(ops, mode, rng):
             jops.append(["EncT", term_json(op[1], lex), term_input(op[1], lex, rng)])
         else:
             jops.append(list(op))
-    return {"kind": "seq", "mode": mode, "ops": jops, "mops": [list(o) if o[0] != "EncT" else ["EncT", o[1]] for o in ops]}
+    c = {"kind": "seq", "mode": mode, "ops": jops, "mops": [list(o) if o[0] != "EncT" else ["EncT", o[1]] for o in ops]}
+    if start_next is not None:
+        c["start_next"] = start_next
+    if start_next_qt is not None:
+        c["start_next_qt"] = start_next_qt
+    return c
 
 
 def tuplify(x):
@@ -226,8 +231,15 @@ def seq_oracle(case, outs):
     id_of_lex, lex_of_id = {}, {}
     id_of_key, key_of_id = {}, {}
     id_of_term = {}
+    boundary = "start_next" in case or "start_next_qt" in case
     for k, (op, o) in enumerate(zip(mops, outs)):
         t = op[0]
+        if "panic" in o:
+            # refusing is the allowed outcome at the limits of the id space (the dictionary's exhaustion assert,
+            # an overflow check of the quoted counter) and nowhere else
+            if boundary and ("exhausted" in o["panic"] or "overflow" in o["panic"]):
+                return None
+            return "step %d: the call panicked: %s" % (k, o["panic"])
         if t == "Enc":
             i, s = o["id"], op[1]
             if i >= QBIT:
@@ -306,9 +318,11 @@ def run_impl_isolating(ctx, binpath, cases):
 
 def eval_seq(ctx, binpath, cases, stream):
     impl = run_impl_isolating(ctx, binpath, [{k: v for k, v in c.items() if k != "mops"} for c in cases])
-    exprs = ["seq_run [%s]" % "; ".join(op_coq(tuple(o) if o[0] != "EncT" else ("EncT", tuplify(o[1]))) for o in c["mops"]) for c in cases]
+    exprs = ["seq_run_from %d%%N %d%%N [%s]" % (c.get("start_next", 0), c.get("start_next_qt", QBIT),
+                                               "; ".join(op_coq(tuple(o) if o[0] != "EncT" else ("EncT", tuplify(o[1]))) for o in c["mops"]))
+             for c in cases]
     model = [norm(m) for m in ctx.run_model("Dict", ["KV.Dict.Model", "KV.Dict.Spec", "KV.Dict.Run"], exprs)]
-    nmis = nviol = 0
+    nmis = nviol = nrefused = 0
     kinds = {}
     for c, im, mo in zip(cases, impl, model):
         ctx.count()
@@ -321,7 +335,7 @@ def eval_seq(ctx, binpath, cases, stream):
             ctx.broken("correspondence", stream, "model evaluation failed: %s" % (mo[1],), pub)
             continue
         if im is None or "outs" not in im:
-            ctx.violation(pub, {"what": "implementation panicked / died on a sequence of encode/decode calls", "impl": im})
+            ctx.violation(pub, {"what": "implementation died on a sequence of encode/decode calls", "impl": im})
             nviol += 1
             continue
         bad = seq_oracle(c, im["outs"])
@@ -329,22 +343,43 @@ def eval_seq(ctx, binpath, cases, stream):
             ctx.violation(pub, {"what": "the identifier bijection is violated", "detail": bad, "impl_outs": im["outs"]})
             nviol += 1
             continue
-        if mo[0] != "Ok":
-            ctx.broken("correspondence", stream, "model reports %r, implementation ran" % (mo,), pub)
-            continue
-        m_outs = [model_out(v, lex) for v in mo[1][0]]
-        m_dump = model_dump(mo[1][1], lex)
-        if im["outs"] != m_outs or im["dump"] != m_dump:
+        m_outs = [model_out(v, lex) for v in mo[0]]
+        m_err = None if mo[1] is None else mo[1][1]
+        m_dump = model_dump(mo[2], lex)
+        i_outs = im["outs"]
+        differ = None
+        if im.get("panicked"):
+            nrefused += 1
+            k = len(i_outs) - 1
+            msg = i_outs[k]["panic"]
+            if i_outs[:k] != m_outs[:k]:
+                differ = "outputs before the refused call differ"
+            elif "exhausted" in msg:
+                # the dictionary's assert: the model must stop at the same call with Exhausted
+                if not (m_err == "Exhausted" and len(m_outs) == k):
+                    differ = "implementation refused call %d (dictionary exhausted), model: %r after %d calls" % (k, m_err, len(m_outs))
+            elif "overflow" in msg:
+                # u32 overflow check of next_qt_id (debug builds): the unbounded model hands out 2^32-1 there
+                if not (k < len(m_outs) and m_outs[k] == {"id": 2 ** 32 - 1}):
+                    differ = "implementation refused call %d (%s), model does not reach the end of the u32 range there" % (k, msg)
+            else:
+                differ = "unexpected panic %r" % msg
+        elif m_err is not None:
+            differ = "model stops with %r after %d calls, implementation ran" % (m_err, len(m_outs))
+        elif i_outs != m_outs or im["dump"] != m_dump:
+            k = next((i for i in range(len(m_outs)) if i >= len(i_outs) or i_outs[i] != m_outs[i]), None)
+            differ = "first differing step %r" % (k,)
+        if differ:
             nmis += 1
-            k = next((i for i in range(len(m_outs)) if i >= len(im["outs"]) or im["outs"][i] != m_outs[i]), None)
             ctx.broken("correspondence", stream,
-                       "implementation and model differ (first differing step %r) but the property oracle accepts the implementation" % (k,),
-                       {"case": pub, "impl": im, "model_outs": m_outs, "model_dump": m_dump})
+                       "implementation and model differ (%s) but the property oracle accepts the implementation" % differ,
+                       {"case": pub, "impl": im, "model_outs": m_outs, "model_err": m_err, "model_dump": m_dump})
         ids = [o["id"] for o in im["outs"] if "id" in o]
         if len({i for i in ids if i < QBIT}) >= 2 and any(i >= QBIT for i in ids) and len(ids) > len(set(ids)):
             ctx.nontrivial(c["mops"])
-    ctx.stream(stream, cases=len(cases), impl_model_mismatches=nmis, spec_violations=nviol, **{"op_" + k: v for k, v in kinds.items()})
-    ctx.log("%s: %d sequence cases, %d impl/model mismatches, %d spec violations" % (stream, len(cases), nmis, nviol))
+    ctx.stream(stream, cases=len(cases), impl_model_mismatches=nmis, spec_violations=nviol, refused_calls=nrefused,
+               **{"op_" + k: v for k, v in kinds.items()})
+    ctx.log("%s: %d sequence cases (%d end in a refused call), %d impl/model mismatches, %d spec violations" % (stream, len(cases), nrefused, nmis, nviol))
 
 
 def exhaustive_seq(L, rng):
@@ -378,6 +413,45 @@ def exhaustive_seq(L, rng):
 
     rec([], Sim(), 0)
     return [seq_case(ops, "db" if k % 2 else "raw", rng) for k, ops in enumerate(cases)]
+
+
+def boundary_seq(rng, thorough):
+    """histories whose public counters were set close to the end of their id ranges beforehand: the dictionary must
+    refuse (assert) rather than hand out a plain id >= 2^31; the quoted counter must not wrap below 2^31"""
+    cases = []
+    fresh = lambda: [("Enc", n) for n in (0, 1, 2, 3)]
+    for mode in ("raw", "db"):
+        for start in (QBIT - 3, QBIT - 2, QBIT - 1, QBIT):
+            # plain fresh terms up to and over the limit; a known term is still served after exhaustion
+            cases.append(seq_case([("Enc", 0), ("Enc", 1), ("Enc", 0), ("Dec", start), ("Enc", 2), ("Dec", start + 1), ("Enc", 3), ("Enc", 0)],
+                                  mode, rng, start_next=start))
+            # the limit is met inside encode_term_star of a quoted term
+            cases.append(seq_case([("EncT", 0), ("EncT", (0, 1, 0)), ("DecT", QBIT), ("EncT", (2, 0, 3)), ("DecT", QBIT + 1)],
+                                  mode, rng, start_next=start))
+            cases.append(seq_case([("Enc", 5), ("EncQ", start, start, start), ("DecT", QBIT), ("Enc", 6), ("Enc", 7), ("Enc", 8), ("DecT", QBIT - 1), ("DecT", QBIT)],
+                                  mode, rng, start_next=start))
+        for startq in (2 ** 32 - 3, 2 ** 32 - 2, 2 ** 32 - 1):
+            cases.append(seq_case([("Enc", 0), ("Enc", 1), ("EncQ", 0, 1, 0), ("DecQ", startq), ("DecT", startq), ("EncQ", 0, 1, 0),
+                                   ("EncQ", 1, 1, 0), ("DecT", startq + 1 if startq + 1 < 2 ** 32 else startq), ("EncQ", 1, 0, 0), ("EncQ", 0, 0, 0)],
+                                  mode, rng, start_next_qt=startq))
+            cases.append(seq_case([("EncT", (0, 1, 0)), ("EncT", ((0, 1, 0), 1, 0)), ("DecT", startq), ("EncT", (1, 1, 1)), ("EncT", (0, 0, 0))],
+                                  mode, rng, start_next_qt=startq))
+    for i in range(60 if thorough else 12):
+        start = QBIT - rng.randrange(0, 6)
+        names = list(range(8))
+        ops = []
+        for _ in range(12):
+            r = rng.random()
+            if r < 0.5:
+                ops.append(("Enc", rng.choice(names)))
+            elif r < 0.7:
+                ops.append(("EncT", rand_term(rng, names, rng.choice([0, 1, 2]))))
+            elif r < 0.85:
+                ops.append(("Dec", rng.choice([start, start + 1, QBIT - 1, QBIT])))
+            else:
+                ops.append(("DecT", rng.choice([start, QBIT - 1, QBIT, QBIT + 1])))
+        cases.append(seq_case(ops, "db" if i % 2 else "raw", rng, start_next=start))
+    return cases
 
 
 def random_seq(rng, n):
@@ -580,11 +654,46 @@ def diff(x, y):
     return out
 
 
+def result_identity(ia, iu, U):
+    """The first half of the property, observed IN the union result (executable form of C15_union_result_identity):
+    (a) no lexical quad is stored twice; (b) the result's identifiers are a bijection (both pairs of maps mutually
+    inverse, one id per quoted triple / term, ranges disjoint), decoding and re-encoding any id it holds returns that
+    id and allocates nothing, and every id the left operand had handed out still stands for the same thing."""
+    nq = len(iu["den"]["quads"])
+    if nq != len(U["quads"]):
+        return "the union stores %d quads but they decode to %d distinct lexical quads (a fact is stored twice)" % (nq, len(U["quads"]))
+    d = iu["dump"]
+    i2s, s2i = {i: x for i, x in d["i2s"]}, {x: i for x, i in d["s2i"]}
+    i2c, c2i = {i: tuple(k) for i, k in d["i2c"]}, {tuple(k): i for k, i in d["c2i"]}
+    if len(i2s) != len(s2i) or any(s2i.get(x) != i for i, x in i2s.items()):
+        return "the union's dictionary maps are not mutually inverse"
+    if len(i2c) != len(c2i) or any(c2i.get(k) != i for i, k in i2c.items()):
+        two = [(i, k) for i, k in i2c.items() if c2i.get(k) != i][:1]
+        return "the union's quoted store is not a bijection: id / components %r, but the components map to %r" % (two, [c2i.get(k) for _, k in two])
+    if any(i >= QBIT for i in i2s) or any(i < QBIT for i in i2c):
+        return "the union holds a plain id in the quoted range or a quoted id in the plain range"
+    if len(i2c) != len(U["quoted"]):
+        return "the union's %d quoted ids decode to %d distinct quoted terms (one quoted triple under two ids)" % (len(i2c), len(U["quoted"]))
+    for i, x in ia["dump"]["i2s"]:
+        if i2s.get(i) != x:
+            return "id %d stood for %r in the left operand and stands for %r in the union" % (i, x, i2s.get(i))
+    for i, k in ia["dump"]["i2c"]:
+        if i2c.get(i) != tuple(k):
+            return "quoted id %d had components %r in the left operand and %r in the union" % (i, k, i2c.get(i))
+    rt = iu.get("roundtrip")
+    if rt is not None and (rt["mismatches"] or rt["allocated"]):
+        m = rt["mismatches"][:2]
+        return ("decoding an id of the union and encoding the term again does not return the id: %r (id, decode_any, id encoded again)%s"
+                % (m, "; re-encoding allocated new ids" if rt["allocated"] else ""))
+    return None
+
+
 def eval_pair(ctx, binpath, cases, stream):
     impl = run_impl_isolating(ctx, binpath, [{k: v for k, v in c.items() if k not in ("ma", "mb")} for c in cases])
     model = [norm(m) for m in ctx.run_model("Dict", ["KV.Dict.Model", "KV.Dict.Spec", "KV.Dict.Run"], [pair_coq(c) for c in cases])]
     nmis = nviol = npanic = nmal = ndump = 0
-    sizes = {"union_quads": 0, "union_graphs": 0, "union_quoted": 0, "union_seeds": 0, "clash_cases": 0, "shared_term_cases": 0,
+    sizes = {"union_quads": 0, "union_graphs": 0, "union_quoted": 0, "union_seeds": 0, "clash_cases": 0, "shared_term_cases": 0, "equal_dictionary_cases": 0, "shared_quoted_term_cases": 0,
+             "quoted_id_clash_cases": 0, "roundtrip_ids_checked": 0,
              "empty_graph_cases": 0, "seed_clash_cases": 0, "max_depth": 0}
     for c, im, mo in zip(cases, impl, model):
         ctx.count()
@@ -632,6 +741,12 @@ def eval_pair(ctx, binpath, cases, stream):
                     ctx.violation(c, {"what": "the union holds an id that does not decode", "union": show(U)})
                     nviol += 1
                     continue
+                bad = result_identity(im["a"], im["u"], U)
+                if bad:
+                    ctx.violation(c, {"what": "the union result is not a stable bijection / stores a fact twice", "detail": bad,
+                                      "union_dump": im["u"]["dump"], "roundtrip": im["u"].get("roundtrip")})
+                    nviol += 1
+                    continue
         # --- the implementation against the model ---
         if sub(drop_undecodable(A)) != MA or sub(drop_undecodable(B)) != MB:
             detail = {"what": "operands differ", "a": diff(sub(drop_undecodable(A)), MA), "b": diff(sub(drop_undecodable(B)), MB)}
@@ -647,12 +762,14 @@ def eval_pair(ctx, binpath, cases, stream):
             MUd.update(dump_den(mdump, DB_TABLE))
             if drop_undecodable(U) != MUd:
                 detail = {"what": "denotations of the union differ", "diff(impl, model)": diff(drop_undecodable(U), MUd)}
+            elif len(muv[0]) != len(im["u"]["den"]["quads"]):
+                detail = {"what": "the union stores %d quads, the model's union %d" % (len(im["u"]["den"]["quads"]), len(muv[0]))}
+            elif im["a_after"] != im["a"] or im["b_after"] != im["b"]:
+                detail = {"what": "union changed one of its operands"}
             elif im["u"]["dump"] != mdump:
                 # which ids the union hands out is not observable through the lexical denotation (a different but
                 # equally correct sweep order changes them): counted, not an alarm
                 ndump += 1
-            elif im["a_after"] != im["a"] or im["b_after"] != im["b"]:
-                detail = {"what": "union changed one of its operands"}
         if detail:
             nmis += 1
             ctx.broken("correspondence", stream, "implementation and model differ but the Spec oracle accepts the implementation", {"case": c, "detail": detail})
@@ -667,6 +784,14 @@ def eval_pair(ctx, binpath, cases, stream):
             shared = bool(set(da.values()) & set(db_.values()))
             sizes["clash_cases"] += clash
             sizes["shared_term_cases"] += shared
+            sizes["equal_dictionary_cases"] += (im["a"]["dump"]["i2s"] == im["b"]["dump"]["i2s"] and bool(im["a"]["dump"]["i2s"]))
+            qa = {tuple(map(repr, x)) for x in im["a"]["quoted"]}
+            qb = {tuple(map(repr, x)) for x in im["b"]["quoted"]}
+            sizes["shared_quoted_term_cases"] += bool(qa & qb)
+            ca, cb = dict((i, tuple(k)) for i, k in im["a"]["dump"]["i2c"]), dict((i, tuple(k)) for i, k in im["b"]["dump"]["i2c"])
+            # equal dictionaries, yet one quoted id stands for different quoted triples in the two operands
+            sizes["quoted_id_clash_cases"] += (im["a"]["dump"]["i2s"] == im["b"]["dump"]["i2s"] and any(i in cb and cb[i] != k for i, k in ca.items()))
+            sizes["roundtrip_ids_checked"] += (im["u"].get("roundtrip") or {}).get("checked", 0)
             gq = {q[3][1] for q in U["quads"] if q[3] is not None}
             sizes["empty_graph_cases"] += bool(U["graphs"] - gq)
             sizes["seed_clash_cases"] += any(k in B["seeds"] and B["seeds"][k] != v for k, v in A["seeds"].items())
@@ -715,6 +840,49 @@ def rand_bops(rng, names, gnames, n, quoted_pool):
     return ops
 
 
+def common_prefix_pair(rng):
+    """both operands start from the SAME history (one vocabulary interned in one order, so their plain dictionaries are
+    equal) and then diverge only in quoted triples: equal plain ids everywhere, clashing quoted ids"""
+    names, gnames = [0, 1, 2, 3, 4, 5], [20, 21]
+    prefix = [("Encode", n) for n in names + gnames]
+    sides = []
+    first = [(0, 1, 2), (0, 1, 3)]
+    rng.shuffle(first)
+    for k in range(2):
+        pool = []
+        ops = [("AddStar", first[k], 4, 5)] if rng.random() < 0.8 else []
+        ops += rand_bops(rng, names, gnames, rng.choice([1, 3, 6]), pool)
+        if rng.random() < 0.5:
+            ops.append(("AddQuad", rand_term(rng, names, 2), 4, rand_term(rng, names, 3), rng.choice(gnames)))
+        sides.append(prefix + ops)
+    return pair_case(sides[0], sides[1], rng)
+
+
+def shared_quoted_pair(rng):
+    """the SAME quoted triples (also nested ones) and the same facts about them occur in both operands, which met
+    their vocabularies in different orders"""
+    na, nb = [0, 1, 2, 3, 4, 5], [0, 1, 2, 3, 4, 5]
+    rng.shuffle(nb)
+    shared = []
+    for _ in range(rng.choice([1, 2, 3])):
+        t = rand_term(rng, na, rng.choice([1, 2, 3, 4]), shared)
+        if isinstance(t, int):
+            t = (t, rng.choice(na), rng.choice(na))
+        shared.append(t)
+    deep = [t for t in shared if depth_of(t) <= 3]
+    facts = [("AddStar", t, rng.choice(na), rng.choice(na)) for t in shared]
+    facts += [("AddQuad", rng.choice(na), rng.choice(na), t, 20) for t in shared if rng.random() < 0.5]
+    facts += [("AddStar", (t, rng.choice(na), t), rng.choice(na), rng.choice(na)) for t in deep if rng.random() < 0.4]
+    a = [("AddTriple", na[0], na[1], na[2])] * (rng.random() < 0.5) + list(facts)
+    b = [("AddTriple", nb[0], nb[1], nb[2])] * (rng.random() < 0.7) + list(facts)
+    rng.shuffle(b)
+    a += rand_bops(rng, na, [20, 21], rng.choice([0, 2, 5]), list(shared))
+    b += rand_bops(rng, nb, [21, 22], rng.choice([0, 2, 5]), list(shared))
+    if rng.random() < 0.5:       # one side only mentions the shared triple without a fact about it
+        b = [("Encode", shared[0])] + b
+    return pair_case(a, b, rng)
+
+
 def random_pair(rng, malformed=False):
     shared = [0, 1, 2, 3]
     only_a, only_b = [4, 5, 6], [7, 8, 9]
@@ -759,7 +927,7 @@ def materialise(c, rng):
     """corpus / replay entries are stored in model form (mops | ma, mb, raw_*); build the driver form"""
     if c["kind"] == "seq":
         ops = [tuple(o) if o[0] != "EncT" else ("EncT", tuplify(o[1])) for o in c["mops"]]
-        return seq_case(ops, c.get("mode", "raw"), rng)
+        return seq_case(ops, c.get("mode", "raw"), rng, c.get("start_next"), c.get("start_next_qt"))
     fix = lambda ops: [tuple(tuplify(x) if isinstance(x, list) else x for x in o) for o in ops]
     return pair_case(fix(c["ma"]), fix(c["mb"]), rng, c.get("raw_quads_b", ()), c.get("raw_graphs_b", ()), c.get("raw_seeds_b", ()))
 
@@ -810,6 +978,8 @@ def run(ctx):
     ctx.coverage["exhaustive_scope"] = ("all %d histories of %d mutators (Enc over 3 terms, encode_term_star over 3 terms of depth 0-2, "
                                         "QuotedTripleStore::encode over up to 6 triples of issued ids) with Dec/DecQ/DecT on 6 ids after every step, "
                                         "alternately on the bare structs and inside a SparqlDatabase" % (len(ex), L))
+    # the limits of the two id ranges (public counters set beforehand)
+    eval_seq(ctx, binpath, boundary_seq(rng, ctx.thorough), "boundary_seq")
     # random sequences
     n = 5000 if ctx.thorough else 500
     rs = [seq_case(random_seq(rng, 60 if ctx.thorough else 40), "db" if i % 2 else "raw", rng) for i in range(n)]
@@ -817,7 +987,16 @@ def run(ctx):
     eval_seq(ctx, binpath, rs, "random_seq")
     # pairs
     n = 4000 if ctx.thorough else 400
-    ps = [random_pair(rng, malformed=(i % 8 == 7)) for i in range(n)]
+    ps = []
+    for i in range(n):
+        if i % 8 == 7:
+            ps.append(random_pair(rng, malformed=True))
+        elif i % 4 == 0:
+            ps.append(common_prefix_pair(rng))
+        elif i % 4 == 1:
+            ps.append(shared_quoted_pair(rng))
+        else:
+            ps.append(random_pair(rng))
     ctx.sample({"pair": {"a": ps[0]["ma"][:5], "b": ps[0]["mb"][:5]}})
     eval_pair(ctx, binpath, ps, "random_pair")
     finish(ctx)
